@@ -351,7 +351,7 @@ func TestCheck(t *testing.T) {
 	if r.Replay != nil {
 		var c Case
 		r.DecodeReplay(&c)
-		r.Guard(0, 40*time.Second, "hang|"+c.Carrier+"|"+c.Ending, c.String(), c, func() { evalCase(t, r, c, ns) })
+		r.Guard(0, 120*time.Second, "hang|"+c.Carrier+"|"+c.Ending, c.String(), c, func() { evalCase(t, r, c, ns) })
 		return
 	}
 	all := cases(r.Thorough())
@@ -363,7 +363,7 @@ func TestCheck(t *testing.T) {
 			r.Cap(fmt.Sprintf("time budget reached at case %d of %d", idx, len(all)))
 			break
 		}
-		r.Guard(idx, 40*time.Second, "hang|"+c.Carrier+"|"+c.Ending, c.String(), c, func() {
+		r.Guard(idx, 120*time.Second, "hang|"+c.Carrier+"|"+c.Ending, c.String(), c, func() {
 			evalCase(t, r, c, ns)
 		})
 		if idx%17 == 0 {
